@@ -154,32 +154,74 @@ def cmp3 (op : CmpOp) : Value → Value → TV
   | _, .null => none
   | a, b => some (op.holds (a.cmp b))
 
-/-! ## LIKE -/
+/-! ## LIKE
+
+Matching is by characters, as SQL defines it: `_` stands for one character, not one byte.  A text is a UTF-8 byte
+string; a character is a lead byte with the continuation bytes (0x80–0xBF) that follow it.  `%` any sequence of
+characters, `_` any one character, `\` makes the next character (also `%`, `_`, `\`) stand for itself; a pattern that
+ends in a lone `\` matches nothing. -/
+
+/-- a character of a text: its bytes -/
+abbrev UChar := List Nat
+
+def isCont (b : Nat) : Bool := 128 ≤ b && b < 192
+
+/-- the characters of a byte string: every byte that is not a continuation byte starts one -/
+def utf8Chars : List Nat → List UChar
+  | [] => []
+  | b :: bs =>
+    match utf8Chars bs with
+    | [] => [[b]]
+    | c :: cs => if (c.head?.map isCont).getD false then (b :: c) :: cs else [b] :: c :: cs
+
+inductive LikeItem where
+  | anySeq            -- `%`
+  | anyOne            -- `_`
+  | lit (c : UChar)   -- an ordinary or an escaped character
+  deriving DecidableEq, Repr, Inhabited
+
+/-- the items of a pattern; `none` for a pattern that ends in the escape character -/
+def likeItems : List UChar → Option (List LikeItem)
+  | [] => some []
+  | [[92]] => none
+  | [92] :: c :: p => (likeItems p).map (.lit c :: ·)
+  | [37] :: p => (likeItems p).map (.anySeq :: ·)
+  | [95] :: p => (likeItems p).map (.anyOne :: ·)
+  | c :: p => (likeItems p).map (.lit c :: ·)
 
 /-- `f` holds for some suffix of the string -/
-def anySuffix (f : List Nat → Bool) : List Nat → Bool
+def anySuffix {α} (f : List α → Bool) : List α → Bool
   | [] => f []
   | c :: s => f (c :: s) || anySuffix f s
 
-/-- `likeMatch pattern string`: `%` (37) any sequence, `_` (95) any single byte, `\` (92) escapes the next byte -/
-def likeMatch : List Nat → List Nat → Bool
+/-- the reference matcher: the simple recursive definition -/
+def likeMatch : List LikeItem → List UChar → Bool
   | [], s => s.isEmpty
-  | 37 :: p, s => anySuffix (likeMatch p) s
-  | 95 :: p, s => match s with
+  | .anySeq :: p, s => anySuffix (likeMatch p) s
+  | .anyOne :: p, s => match s with
     | [] => false
     | _ :: s' => likeMatch p s'
-  | [92], _ => false
-  | 92 :: c :: p, s => match s with
+  | .lit c :: p, s => match s with
     | [] => false
     | x :: s' => x == c && likeMatch p s'
-  | c :: p, s => match s with
-    | [] => false
-    | x :: s' => x == c && likeMatch p s'
+
+/-- `subject LIKE pattern` on byte strings -/
+def likeText (p s : List Nat) : Bool :=
+  match likeItems (utf8Chars p) with
+  | none => false
+  | some items => likeMatch items (utf8Chars s)
+
+/-- what LIKE means: the subject is the concatenation of what the items stand for -/
+inductive Likes : List LikeItem → List UChar → Prop where
+  | nil : Likes [] []
+  | anySeq (p : List LikeItem) (s₁ s₂ : List UChar) : Likes p s₂ → Likes (.anySeq :: p) (s₁ ++ s₂)
+  | anyOne (p : List LikeItem) (c : UChar) (s : List UChar) : Likes p s → Likes (.anyOne :: p) (c :: s)
+  | lit (p : List LikeItem) (c : UChar) (s : List UChar) : Likes p s → Likes (.lit c :: p) (c :: s)
 
 def like3 : Value → Value → Except Err TV
   | .null, _ => .ok none
   | _, .null => .ok none
-  | .text s, .text p => .ok (some (likeMatch p s))
+  | .text s, .text p => .ok (some (likeText p s))
   | _, _ => .error .type
 
 /-! ## Arithmetic -/
